@@ -229,7 +229,7 @@ func storeSnapshot(ctx context.Context, st state.CoreState, kind resource.Kind, 
 }
 
 // ops of the API alphabet
-var apiOps = []string{"create-b", "update-a", "modify-a", "modify-c(new)", "uwc-a", "get-a", "list", "list-label", "list-id", "watch-a", "watchkind", "copy-md"}
+var apiOps = []string{"create-b", "update-a", "update-a(emptied)", "modify-a", "modify-c(new)", "uwc-a", "get-a", "list", "list-label", "list-id", "watch-a", "watchkind", "copy-md"}
 
 func runSequence(x *explore.X, fl string, seq []string) int {
 	useSlice := fl != "remote"
@@ -307,6 +307,20 @@ func runSequence(x *explore.X, fl string, seq []string) int {
 				cur, err := st.Get(ctx, ptr("a"))
 				if err == nil {
 					cur.Metadata().Labels().Set("upd", fmt.Sprint(i))
+					st.Update(ctx, cur, state.WithExpectedPhaseAny()) //nolint:errcheck
+					hold(tag+"arg", cur)
+				}
+			case "update-a(emptied)":
+				// every label and annotation deleted one by one: the maps are allocated and empty when the store
+				// takes its copy
+				cur, err := st.Get(ctx, ptr("a"))
+				if err == nil {
+					for _, k := range cur.Metadata().Labels().Keys() {
+						cur.Metadata().Labels().Delete(k)
+					}
+					for _, k := range cur.Metadata().Annotations().Keys() {
+						cur.Metadata().Annotations().Delete(k)
+					}
 					st.Update(ctx, cur, state.WithExpectedPhaseAny()) //nolint:errcheck
 					hold(tag+"arg", cur)
 				}
